@@ -90,7 +90,7 @@ def lcg(seed):
     x = seed * 2654435761 % (1 << 32)
     while True:
         x = (1103515245 * x + 12345) % (1 << 31)
-        yield x
+        yield x >> 8  # the low bits of an LCG are not random
 
 
 def points(tier: str) -> List[dict]:
@@ -159,7 +159,7 @@ def points(tier: str) -> List[dict]:
     for i in range(8 if not th else 30):
         n = 4 + next(g) % 3
         c = [[0 if a == b else 1 + next(g) % 20 for b in range(n)] for a in range(n)]
-        if next(g) % 2:
+        if i % 3 == 0:  # one third symmetric, two thirds asymmetric (a directed successor model: asymmetric costs are legal)
             c = [[c[min(a, b)][max(a, b)] for b in range(n)] for a in range(n)]
         P.append({"spec": {"model": "tsp", "costs": c, "op": "opt", "brute": True, "cfg": {"tsp_heuristics": bool(i % 2)}}, "optimum": "brute", "fix_heur": bool(i % 2)})
     for n in (3, 4, 5, 6):
